@@ -901,6 +901,8 @@ pub enum ConstsError {
         "unable to add consts for policy {computation_id}. state must be Validate, SendingConsts or SendingConstsCompleted but is {state}"
     )]
     InvalidState { state: String, computation_id: Uuid },
+    #[error("consts for policy {computation_id} from party {from}, which is not a participant")]
+    UnknownParty { from: usize, computation_id: Uuid },
 }
 
 impl<B, C> PolicyState<B, C>
@@ -914,6 +916,28 @@ where
         consts_request: ConstsRequest,
         ret: Ret<ConstsError>,
     ) -> ControlFlow<(), Self> {
+        // Constants are stored under `PARTY_{from}` and counted against the program's constant
+        // dependencies: a sender index that is not a participant must not get that far.
+        let participants = match &self.state_kind {
+            PolicyStateKind::Validated { policy, .. }
+            | PolicyStateKind::SendingConsts { policy, .. }
+            | PolicyStateKind::SendingConstsCompleted { policy, .. } => {
+                Some(policy.participants.len())
+            }
+            _ => None,
+        };
+        if let Some(participants) = participants
+            && consts_request.from >= participants
+        {
+            ret_err(
+                ret,
+                ConstsError::UnknownParty {
+                    from: consts_request.from,
+                    computation_id: consts_request.computation_id,
+                },
+            );
+            return ControlFlow::Continue(self);
+        }
         match mem::take(&mut self.state_kind) {
             state @ (PolicyStateKind::Validated { .. } | PolicyStateKind::SendingConsts { .. }) => {
                 self.state_kind = state;
